@@ -549,6 +549,10 @@ func runCheck(o checkOpts) *CheckOutcome {
 			return fail("contracts: " + e.Error())
 		}
 	}
+	p.findingRegions = map[string]string{}
+	for _, f := range ff.Findings {
+		p.findingRegions[f.Obligation] = f.Region
+	}
 	out.LoadS = time.Since(t0).Seconds()
 	t1 := time.Now()
 	obs := generate(p, o.prop, ff, out)
